@@ -1,8 +1,1219 @@
-//! C01 — not implemented yet (stub).
-use crate::engine::Opts;
-pub fn main(_opts: &Opts) -> i32 {
-    eprintln!("C01: check not implemented");
-    2
+//! C01 — in-memory graphs/datasets behave exactly like a mathematical set of quads
+//! (vector-backed ones like the corresponding list).
+//!
+//! One case = one operation history (insert / remove / insert_all / remove_all /
+//! remove_matching / retain_matching / rebuild through from_quad_source|from_triple_source /
+//! pattern query / contains / term enumerations) over a small, *dense* universe of
+//! generalized quads. The same history is run against every shipped store type (35 of them:
+//! Fast/Light Dataset/Graph with 32-, 16-bit and harness-defined tiny term indexes,
+//! HashSet/BTreeSet/Vec of Spog/Gspo/[T;3] over SimpleTerm and ArcTerm) and after every
+//! operation each store is compared with its own reference model (a multiset of model
+//! quads + the set of terms ever given to the term index, in `ensure_index` order).
+use crate::engine::*;
+use crate::gen::*;
+use crate::model::*;
+use crate::pat::*;
+use crate::stores::*;
+use proptest::prelude::*;
+use proptest::strategy::ValueTree;
+use proptest::test_runner::{Config, RngAlgorithm, TestRng, TestRunner};
+use serde::{Deserialize, Serialize};
+use sophia_api::dataset::Dataset;
+use sophia_api::graph::Graph;
+use sophia_api::quad::{Gspo, Spog};
+use sophia_term::ArcTerm;
+use std::collections::{BTreeMap, BTreeSet, HashSet};
+
+#[derive(Clone, Debug, Serialize, Deserialize)]
+pub enum Op {
+    Insert(MQ),
+    Remove(MQ),
+    InsertAll(Vec<MQ>),
+    RemoveAll(Vec<MQ>),
+    RemoveMatching(QPat),
+    RetainMatching(QPat),
+    /// replace the store by `from_quad_source` / `from_triple_source` of its (sorted)
+    /// content followed by these extra quads (a fresh term index)
+    Rebuild(Vec<MQ>),
+    Query(QPat),
+    Contains(MQ),
+    Terms,
+}
+impl Op {
+    fn kind(&self) -> &'static str {
+        match self {
+            Op::Insert(_) => "insert",
+            Op::Remove(_) => "remove",
+            Op::InsertAll(_) => "insert_all",
+            Op::RemoveAll(_) => "remove_all",
+            Op::RemoveMatching(_) => "remove_matching",
+            Op::RetainMatching(_) => "retain_matching",
+            Op::Rebuild(_) => "rebuild",
+            Op::Query(_) => "query",
+            Op::Contains(_) => "contains",
+            Op::Terms => "terms",
+        }
+    }
+}
+
+#[derive(Clone, Debug, Serialize, Deserialize)]
+pub struct Case {
+    pub init: Vec<MQ>,
+    pub ops: Vec<Op>,
+    /// run only the store with this name (None = every store)
+    #[serde(default)]
+    pub only: Option<String>,
+    /// u16-boundary scenario: number of distinct terms pre-filled into the term index
+    /// (0 = none); such a case runs on the four `small::*` stores only
+    #[serde(default)]
+    pub prefill: u32,
+}
+
+// ------------------------------------------------------------------ systems under test
+
+trait Sut: Sized {
+    const IS_DS: bool;
+    fn build(qs: &[MQ]) -> Result<Self, String>;
+    fn insert(&mut self, q: &MQ) -> Result<bool, String>;
+    fn remove(&mut self, q: &MQ) -> Result<bool, String>;
+    fn all(&self) -> Vec<MQ>;
+    fn matching(&self, p: &QPat) -> Vec<MQ>;
+    fn contains(&self, q: &MQ) -> bool;
+    fn remove_matching(&mut self, p: &QPat) -> Result<usize, String>;
+    fn retain_matching(&mut self, p: &QPat) -> Result<(), String>;
+    fn insert_all(&mut self, qs: &[MQ]) -> Result<usize, (bool, String)>;
+    fn remove_all(&mut self, qs: &[MQ]) -> Result<usize, (bool, String)>;
+    fn term_enums(&self) -> Vec<(&'static str, Vec<MT>)>;
+}
+
+struct Ds<D>(D);
+struct Gr<G>(G);
+
+macro_rules! sut_ds {
+    ($($ty:ty),* $(,)?) => {$(
+        impl Sut for Ds<$ty> {
+            const IS_DS: bool = true;
+            fn build(qs: &[MQ]) -> Result<Self, String> {
+                d_from::<$ty>(qs).map(Ds)
+            }
+            fn insert(&mut self, q: &MQ) -> Result<bool, String> {
+                d_insert(&mut self.0, q)
+            }
+            fn remove(&mut self, q: &MQ) -> Result<bool, String> {
+                d_remove(&mut self.0, q)
+            }
+            fn all(&self) -> Vec<MQ> {
+                d_all(&self.0)
+            }
+            fn matching(&self, p: &QPat) -> Vec<MQ> {
+                d_matching(&self.0, p)
+            }
+            fn contains(&self, q: &MQ) -> bool {
+                d_contains(&self.0, q)
+            }
+            fn remove_matching(&mut self, p: &QPat) -> Result<usize, String> {
+                d_remove_matching(&mut self.0, p)
+            }
+            fn retain_matching(&mut self, p: &QPat) -> Result<(), String> {
+                d_retain_matching(&mut self.0, p)
+            }
+            fn insert_all(&mut self, qs: &[MQ]) -> Result<usize, (bool, String)> {
+                d_insert_all(&mut self.0, qs)
+            }
+            fn remove_all(&mut self, qs: &[MQ]) -> Result<usize, (bool, String)> {
+                d_remove_all(&mut self.0, qs)
+            }
+            fn term_enums(&self) -> Vec<(&'static str, Vec<MT>)> {
+                vec![
+                    ("subjects", d_subjects(&self.0)),
+                    ("predicates", d_predicates(&self.0)),
+                    ("objects", d_objects(&self.0)),
+                    ("graph_names", d_graph_names(&self.0)),
+                    ("iris", d_iris(&self.0)),
+                    ("blank_nodes", d_blank_nodes(&self.0)),
+                    ("literals", d_literals(&self.0)),
+                    ("variables", d_variables(&self.0)),
+                    (
+                        "quoted_triples",
+                        self.0
+                            .quoted_triples()
+                            .map(|t| MT::from_term(t.expect("quoted_triples() error")))
+                            .collect(),
+                    ),
+                ]
+            }
+        }
+    )*};
+}
+macro_rules! sut_gr {
+    ($($ty:ty),* $(,)?) => {$(
+        impl Sut for Gr<$ty> {
+            const IS_DS: bool = false;
+            fn build(qs: &[MQ]) -> Result<Self, String> {
+                g_from::<$ty>(qs).map(Gr)
+            }
+            fn insert(&mut self, q: &MQ) -> Result<bool, String> {
+                g_insert(&mut self.0, q)
+            }
+            fn remove(&mut self, q: &MQ) -> Result<bool, String> {
+                g_remove(&mut self.0, q)
+            }
+            fn all(&self) -> Vec<MQ> {
+                g_all(&self.0)
+            }
+            fn matching(&self, p: &QPat) -> Vec<MQ> {
+                g_matching(&self.0, p)
+            }
+            fn contains(&self, q: &MQ) -> bool {
+                g_contains(&self.0, q)
+            }
+            fn remove_matching(&mut self, p: &QPat) -> Result<usize, String> {
+                g_remove_matching(&mut self.0, p)
+            }
+            fn retain_matching(&mut self, p: &QPat) -> Result<(), String> {
+                g_retain_matching(&mut self.0, p)
+            }
+            fn insert_all(&mut self, qs: &[MQ]) -> Result<usize, (bool, String)> {
+                g_insert_all(&mut self.0, qs)
+            }
+            fn remove_all(&mut self, qs: &[MQ]) -> Result<usize, (bool, String)> {
+                g_remove_all(&mut self.0, qs)
+            }
+            fn term_enums(&self) -> Vec<(&'static str, Vec<MT>)> {
+                vec![
+                    ("subjects", g_subjects(&self.0)),
+                    ("predicates", g_predicates(&self.0)),
+                    ("objects", g_objects(&self.0)),
+                    ("iris", g_iris(&self.0)),
+                    ("blank_nodes", g_blank_nodes(&self.0)),
+                    ("literals", g_literals(&self.0)),
+                    ("variables", g_variables(&self.0)),
+                    (
+                        "quoted_triples",
+                        self.0
+                            .quoted_triples()
+                            .map(|t| MT::from_term(t.expect("quoted_triples() error")))
+                            .collect(),
+                    ),
+                ]
+            }
+        }
+    )*};
+}
+
+type HashSpogArc = HashSet<Spog<ArcTerm>>;
+type BTreeGspoArc = BTreeSet<Gspo<ArcTerm>>;
+type VecGspoArc = Vec<Gspo<ArcTerm>>;
+type HashTriplesArc = HashSet<[ArcTerm; 3]>;
+type BTreeTriplesArc = BTreeSet<[ArcTerm; 3]>;
+type VecTriplesArc = Vec<[ArcTerm; 3]>;
+
+sut_ds!(
+    FastDataset,
+    LightDataset,
+    SmallFastDataset,
+    SmallLightDataset,
+    TinyFastDataset<5>,
+    TinyFastDataset<8>,
+    TinyFastDataset<12>,
+    TinyLightDataset<5>,
+    TinyLightDataset<8>,
+    TinyLightDataset<12>,
+    HashSpog,
+    HashGspo,
+    BTreeSpog,
+    BTreeGspo,
+    VecSpog,
+    VecGspo,
+    HashSpogArc,
+    BTreeGspoArc,
+    VecGspoArc,
+);
+sut_gr!(
+    FastGraph,
+    LightGraph,
+    SmallFastGraph,
+    SmallLightGraph,
+    TinyFastGraph<5>,
+    TinyFastGraph<8>,
+    TinyFastGraph<12>,
+    TinyLightGraph<5>,
+    TinyLightGraph<8>,
+    TinyLightGraph<12>,
+    HashTriples,
+    BTreeTriples,
+    VecTriples,
+    HashTriplesArc,
+    BTreeTriplesArc,
+    VecTriplesArc,
+);
+
+const U16_CAP: usize = u16::MAX as usize;
+
+/// (name, is_set, capacity of the term index)
+const DS_STORES: &[(&str, bool, Option<usize>)] = &[
+    ("FastDataset", true, None),
+    ("LightDataset", true, None),
+    ("small::FastDataset", true, Some(U16_CAP)),
+    ("small::LightDataset", true, Some(U16_CAP)),
+    ("TinyFastDataset<5>", true, Some(5)),
+    ("TinyFastDataset<8>", true, Some(8)),
+    ("TinyFastDataset<12>", true, Some(12)),
+    ("TinyLightDataset<5>", true, Some(5)),
+    ("TinyLightDataset<8>", true, Some(8)),
+    ("TinyLightDataset<12>", true, Some(12)),
+    ("HashSet<Spog>", true, None),
+    ("HashSet<Gspo>", true, None),
+    ("BTreeSet<Spog>", true, None),
+    ("BTreeSet<Gspo>", true, None),
+    ("Vec<Spog>", false, None),
+    ("Vec<Gspo>", false, None),
+    ("HashSet<Spog<ArcTerm>>", true, None),
+    ("BTreeSet<Gspo<ArcTerm>>", true, None),
+    ("Vec<Gspo<ArcTerm>>", false, None),
+];
+const GR_STORES: &[(&str, bool, Option<usize>)] = &[
+    ("FastGraph", true, None),
+    ("LightGraph", true, None),
+    ("small::FastGraph", true, Some(U16_CAP)),
+    ("small::LightGraph", true, Some(U16_CAP)),
+    ("TinyFastGraph<5>", true, Some(5)),
+    ("TinyFastGraph<8>", true, Some(8)),
+    ("TinyFastGraph<12>", true, Some(12)),
+    ("TinyLightGraph<5>", true, Some(5)),
+    ("TinyLightGraph<8>", true, Some(8)),
+    ("TinyLightGraph<12>", true, Some(12)),
+    ("HashSet<[T;3]>", true, None),
+    ("BTreeSet<[T;3]>", true, None),
+    ("Vec<[T;3]>", false, None),
+    ("HashSet<[ArcTerm;3]>", true, None),
+    ("BTreeSet<[ArcTerm;3]>", true, None),
+    ("Vec<[ArcTerm;3]>", false, None),
+];
+
+// ------------------------------------------------------------------ reference model
+
+fn proj(q: &MQ) -> MQ {
+    MQ::new(q.s.clone(), q.p.clone(), q.o.clone(), None)
+}
+
+#[derive(Clone)]
+struct Model {
+    is_set: bool,
+    is_ds: bool,
+    /// capacity of the term index: `Index::MAX` terms fit (indices 0..MAX-1; MAX itself is
+    /// reserved for the default graph and never issued to a term)
+    cap: Option<usize>,
+    /// multiset of quads (count <= 1 for set stores)
+    quads: BTreeMap<MQ, usize>,
+    /// terms ever given an index (an index entry is never released by a removal)
+    indexed: BTreeSet<MT>,
+    /// number of index-full events predicted so far
+    full_events: u32,
+}
+impl Model {
+    fn new(is_set: bool, is_ds: bool, cap: Option<usize>) -> Model {
+        Model { is_set, is_ds, cap, quads: BTreeMap::new(), indexed: BTreeSet::new(), full_events: 0 }
+    }
+    fn norm(&self, q: &MQ) -> MQ {
+        if self.is_ds {
+            q.clone()
+        } else {
+            proj(q)
+        }
+    }
+    /// The `ensure_index` calls of one insertion, in the order s, p, o, g of
+    /// `Generic*::insert`. `Err` = the index is full (the terms before the offending one
+    /// stay indexed, the quad sets are untouched). `force`: ignore the capacity.
+    fn index_terms(&mut self, q: &MQ, force: bool) -> Result<(), ()> {
+        let Some(cap) = self.cap else { return Ok(()) };
+        for t in q.terms() {
+            if !self.indexed.contains(t) {
+                if self.indexed.len() >= cap && !force {
+                    self.full_events += 1;
+                    return Err(());
+                }
+                self.indexed.insert(t.clone());
+            }
+        }
+        Ok(())
+    }
+    fn insert(&mut self, q: &MQ, force: bool) -> Result<bool, ()> {
+        let q = self.norm(q);
+        self.index_terms(&q, force)?;
+        let c = self.quads.entry(q).or_insert(0);
+        if self.is_set && *c > 0 {
+            Ok(false)
+        } else {
+            *c += 1;
+            Ok(true)
+        }
+    }
+    fn count(&self, q: &MQ) -> usize {
+        self.quads.get(&self.norm(q)).copied().unwrap_or(0)
+    }
+    /// removal drops every occurrence
+    fn remove(&mut self, q: &MQ) -> bool {
+        self.quads.remove(&self.norm(q)).is_some()
+    }
+    fn all(&self) -> Vec<MQ> {
+        let mut v = vec![];
+        for (q, n) in &self.quads {
+            for _ in 0..*n {
+                v.push(q.clone());
+            }
+        }
+        v
+    }
+    fn pmatch(&self, p: &QPat, q: &MQ) -> bool {
+        if self.is_ds {
+            p.matches(q)
+        } else {
+            p.matches_triple(q)
+        }
+    }
+    fn len(&self) -> usize {
+        self.quads.values().sum()
+    }
+    fn term_enums(&self) -> Vec<(&'static str, BTreeSet<MT>)> {
+        let mut subjects = BTreeSet::new();
+        let mut predicates = BTreeSet::new();
+        let mut objects = BTreeSet::new();
+        let mut graph_names = BTreeSet::new();
+        let mut iris = BTreeSet::new();
+        let mut bnodes = BTreeSet::new();
+        let mut literals = BTreeSet::new();
+        let mut variables = BTreeSet::new();
+        let mut quoted = BTreeSet::new();
+        for q in self.quads.keys() {
+            subjects.insert(q.s.clone());
+            predicates.insert(q.p.clone());
+            objects.insert(q.o.clone());
+            if let Some(g) = &q.g {
+                graph_names.insert(g.clone());
+            }
+            for t in q.terms() {
+                let mut atoms = vec![];
+                t.atoms(&mut atoms);
+                for a in atoms {
+                    match a {
+                        MT::Iri(_) => iris.insert(a.clone()),
+                        MT::Bnode(_) => bnodes.insert(a.clone()),
+                        MT::Lit(..) | MT::Lang(..) => literals.insert(a.clone()),
+                        MT::Var(_) => variables.insert(a.clone()),
+                        MT::Triple(_) => unreachable!(),
+                    };
+                }
+                let mut cs = vec![];
+                t.constituents(&mut cs);
+                for c in cs {
+                    if c.is_triple() {
+                        quoted.insert(c.clone());
+                    }
+                }
+            }
+        }
+        let mut v = vec![("subjects", subjects), ("predicates", predicates), ("objects", objects)];
+        if self.is_ds {
+            v.push(("graph_names", graph_names));
+        }
+        v.extend([
+            ("iris", iris),
+            ("blank_nodes", bnodes),
+            ("literals", literals),
+            ("variables", variables),
+            ("quoted_triples", quoted),
+        ]);
+        v
+    }
+}
+
+fn same(got: &[MQ], exp: &[MQ]) -> bool {
+    got.len() == exp.len() && got.iter().zip(exp.iter()).all(|(a, b)| a == b)
+}
+fn brief(qs: &[MQ]) -> String {
+    let mut s = qs.iter().take(40).map(MQ::show).collect::<Vec<_>>().join(" ; ");
+    if qs.len() > 40 {
+        s.push_str(&format!(" ; … ({} in total)", qs.len()));
+    }
+    s
+}
+
+/// Distinct terms `0..n` used to pre-fill a 16-bit term index, as quads of fresh terms.
+fn prefill_quads(n: u32, is_ds: bool) -> Vec<MQ> {
+    let term = |i: u32| match i % 3 {
+        0 => MT::iri(format!("http://pre.example/{i}")),
+        1 => MT::string(format!("prefilled value {i}")),
+        _ => MT::bn(format!("n{i}")),
+    };
+    let per = if is_ds { 4 } else { 3 };
+    let mut out = vec![];
+    let mut i = 0;
+    while i + per <= n {
+        let g = if is_ds { Some(term(i + 3)) } else { None };
+        out.push(MQ::new(term(i), term(i + 1), term(i + 2), g));
+        i += per;
+    }
+    while i < n {
+        // left-over terms: one new term per quad
+        out.push(MQ::new(term(i), term(0), term(0), None));
+        i += 1;
+    }
+    out
+}
+
+struct Runner<'a, S: Sut> {
+    name: &'a str,
+    kind: &'static str,
+    st: S,
+    m: Model,
+    ctx: &'a mut Ctx,
+    step: usize,
+}
+
+impl<'a, S: Sut> Runner<'a, S> {
+    fn fail(&mut self, op: &str, aspect: &str, detail: String) {
+        let fam = if S::IS_DS { "dataset" } else { "graph" };
+        self.ctx.fail(
+            format!("{}/{op}/{aspect}", self.kind),
+            format!("store {} ({fam}), step {}: {op}: {detail}", self.name, self.step),
+        );
+    }
+    /// full enumeration == model (each member once for sets, multiset for lists)
+    fn check_all(&mut self, op: &str, aspect: &str) {
+        let got = ms(self.st.all());
+        let exp = self.m.all();
+        if !same(&got, &exp) {
+            self.fail(op, aspect, format!("content differs from the model\n got: {}\n exp: {}", brief(&got), brief(&exp)));
+        }
+    }
+    fn at_capacity(&self) -> bool {
+        self.m.cap.map(|c| self.m.indexed.len() >= c).unwrap_or(false)
+    }
+
+    fn op_insert(&mut self, q: &MQ) {
+        let real = self.st.insert(q);
+        let exp = self.m.insert(q, false);
+        match (real, exp) {
+            (Ok(f), Ok(e)) => {
+                if self.m.is_set && f != e {
+                    self.fail("insert", "flag", format!("insert {} returned {f}, the set changed: {e}", q.show()));
+                }
+            }
+            (Err(_), Err(())) => {
+                self.ctx.class(format!("index-full:{}", self.name));
+                self.ctx.class("index-full:insert");
+            }
+            (Err(e), Ok(_)) => {
+                self.fail("insert", "spurious-error", format!("insert {} failed with {e} although the term index has room ({} terms indexed, capacity {:?})", q.show(), self.m.indexed.len(), self.m.cap));
+            }
+            (Ok(f), Err(())) => {
+                // more terms accepted than the model's capacity: not a set-semantics
+                // violation by itself; follow the implementation and keep checking the set
+                self.ctx.class("beyond-capacity-accepted");
+                let e = self.m.insert(q, true).unwrap_or(false);
+                if self.m.is_set && f != e {
+                    self.fail("insert", "flag", format!("insert {} returned {f}, the set changed: {e}", q.show()));
+                }
+            }
+        }
+        let aspect = if self.at_capacity() { "content-at-index-capacity" } else { "content" };
+        self.check_all("insert", aspect);
+    }
+
+    fn op_remove(&mut self, q: &MQ) {
+        let before = self.m.count(q);
+        let real = self.st.remove(q);
+        let e = self.m.remove(q);
+        match real {
+            Ok(f) => {
+                if self.m.is_set && f != e {
+                    self.fail("remove", "flag", format!("remove {} returned {f}, the set changed: {e}", q.show()));
+                }
+            }
+            Err(err) => self.fail("remove", "error", format!("remove {} failed: {err}", q.show())),
+        }
+        let aspect = if before >= 2 { "content-after-removing-duplicated-member" } else { "content" };
+        self.check_all("remove", aspect);
+    }
+
+    fn op_insert_all(&mut self, qs: &[MQ], op: &'static str) {
+        // sequential semantics: stops at the first quad that does not fit in the index
+        let mut sim = self.m.clone();
+        let mut n = 0usize;
+        let mut full = false;
+        for q in qs {
+            match sim.insert(q, false) {
+                Ok(true) => n += 1,
+                Ok(false) => {}
+                Err(()) => {
+                    full = true;
+                    break;
+                }
+            }
+        }
+        let real = self.st.insert_all(qs);
+        match (real, full) {
+            (Ok(c), false) => {
+                self.m = sim;
+                if self.m.is_set && c != n {
+                    self.fail(op, "count", format!("returned {c}, but {n} quads were actually added"));
+                }
+            }
+            (Err((is_sink, e)), true) => {
+                self.m = sim;
+                self.ctx.class(format!("index-full:{}", self.name));
+                self.ctx.class(format!("index-full:{op}"));
+                if !is_sink {
+                    self.fail(op, "error-kind", format!("index full reported as a source error: {e}"));
+                }
+            }
+            (Err((_, e)), false) => {
+                self.m = sim;
+                self.fail(op, "spurious-error", format!("failed with {e} although every term fits in the index"));
+            }
+            (Ok(c), true) => {
+                self.ctx.class("beyond-capacity-accepted");
+                let mut n = 0;
+                for q in qs {
+                    if self.m.insert(q, true) == Ok(true) {
+                        n += 1;
+                    }
+                }
+                if self.m.is_set && c != n {
+                    self.fail(op, "count", format!("returned {c}, but {n} quads were actually added"));
+                }
+            }
+        }
+        let aspect = if full { "content-after-index-full" } else { "content" };
+        self.check_all(op, aspect);
+    }
+
+    fn op_remove_all(&mut self, qs: &[MQ]) {
+        let mut n = 0;
+        let mut dup = false;
+        for q in qs {
+            if self.m.count(q) >= 2 {
+                dup = true;
+            }
+            if self.m.remove(q) {
+                n += 1;
+            }
+        }
+        match self.st.remove_all(qs) {
+            Ok(c) => {
+                if self.m.is_set && c != n {
+                    self.fail("remove_all", "count", format!("returned {c}, but {n} quads were actually removed"));
+                }
+            }
+            Err((_, e)) => self.fail("remove_all", "error", format!("failed: {e}")),
+        }
+        let aspect = if dup { "content-after-removing-duplicated-member" } else { "content" };
+        self.check_all("remove_all", aspect);
+    }
+
+    fn shape(&self, p: &QPat) -> String {
+        let s = p.shape();
+        if S::IS_DS {
+            format!("dataset:{s}")
+        } else {
+            format!("graph:{}", &s[..3])
+        }
+    }
+
+    fn op_remove_matching(&mut self, p: &QPat) {
+        let victims: Vec<MQ> = self.m.quads.keys().filter(|q| self.m.pmatch(p, q)).cloned().collect();
+        let n = victims.len();
+        let dup = victims.iter().any(|q| self.m.count(q) >= 2);
+        for q in &victims {
+            self.m.remove(q);
+        }
+        match self.st.remove_matching(p) {
+            Ok(c) => {
+                if self.m.is_set && c != n {
+                    let sh = self.shape(p);
+                    self.fail("remove_matching", "count", format!("pattern shape {sh}: returned {c}, but {n} quads matched and were removed"));
+                }
+            }
+            Err(e) => self.fail("remove_matching", "error", format!("failed: {e}")),
+        }
+        let aspect = if dup { "content-after-removing-duplicated-member".to_string() } else { format!("content/{}", self.shape(p)) };
+        self.check_all("remove_matching", &aspect);
+    }
+
+    fn op_retain_matching(&mut self, p: &QPat) {
+        let victims: Vec<MQ> = self.m.quads.keys().filter(|q| !self.m.pmatch(p, q)).cloned().collect();
+        let dup = victims.iter().any(|q| self.m.count(q) >= 2);
+        for q in &victims {
+            self.m.remove(q);
+        }
+        if let Err(e) = self.st.retain_matching(p) {
+            self.fail("retain_matching", "error", format!("failed: {e}"));
+        }
+        let aspect = if dup { "content-after-removing-duplicated-member" } else { "content" };
+        self.check_all("retain_matching", aspect);
+    }
+
+    /// `from_quad_source`/`from_triple_source` of `src`: Some((store, model)) if it must succeed
+    fn build(&mut self, src: &[MQ], op: &'static str) -> Option<(S, Model)> {
+        let mut nm = Model::new(self.m.is_set, self.m.is_ds, self.m.cap);
+        let mut full = false;
+        for q in src {
+            if nm.insert(q, false).is_err() {
+                full = true;
+                break;
+            }
+        }
+        match (S::build(src), full) {
+            (Ok(st), false) => Some((st, nm)),
+            (Err(e), true) => {
+                self.ctx.class(format!("index-full:{}", self.name));
+                self.ctx.class(format!("index-full:{op}"));
+                if !e.starts_with("sink:") {
+                    self.fail(op, "error-kind", format!("index full reported as a source error: {e}"));
+                }
+                None
+            }
+            (Err(e), false) => {
+                self.fail(op, "spurious-error", format!("failed with {e} although every term fits in the index"));
+                None
+            }
+            (Ok(st), true) => {
+                self.ctx.class("beyond-capacity-accepted");
+                let mut nm = Model::new(self.m.is_set, self.m.is_ds, self.m.cap);
+                for q in src {
+                    let _ = nm.insert(q, true);
+                }
+                Some((st, nm))
+            }
+        }
+    }
+
+    fn op_rebuild(&mut self, extra: &[MQ]) {
+        let mut src = self.m.all();
+        src.extend(extra.iter().cloned());
+        if let Some((st, nm)) = self.build(&src, "rebuild") {
+            self.st = st;
+            self.m = nm;
+        }
+        // on a (predicted) failure the previous store is kept: it must be unchanged
+        self.check_all("rebuild", "content");
+    }
+
+    fn op_query(&mut self, p: &QPat) {
+        let got = ms(self.st.matching(p));
+        let exp: Vec<MQ> = self.m.all().into_iter().filter(|q| self.m.pmatch(p, q)).collect();
+        if !same(&got, &exp) {
+            let sh = self.shape(p);
+            self.fail(
+                "query",
+                &sh,
+                format!("pattern {:?}\n got: {}\n exp: {}\n store content: {}", p, brief(&got), brief(&exp), brief(&self.m.all())),
+            );
+        }
+    }
+
+    fn op_contains(&mut self, q: &MQ) {
+        let got = self.st.contains(q);
+        let exp = self.m.count(q) > 0;
+        if got != exp {
+            self.fail("contains", "answer", format!("contains({}) = {got}, expected {exp}", q.show()));
+        }
+    }
+
+    fn op_terms(&mut self) {
+        let got = self.st.term_enums();
+        let exp = self.m.term_enums();
+        for ((gn, gv), (en, ev)) in got.into_iter().zip(exp.into_iter()) {
+            assert_eq!(gn, en);
+            let gs: BTreeSet<MT> = gv.into_iter().collect();
+            if gs != ev {
+                let show = |s: &BTreeSet<MT>| s.iter().map(MT::show).collect::<Vec<_>>().join(", ");
+                self.fail("terms", gn, format!("{gn}() as a set: got {{{}}}, expected {{{}}}", show(&gs), show(&ev)));
+            }
+        }
+    }
+}
+
+fn run_store<S: Sut>(name: &str, is_set: bool, cap: Option<usize>, case: &Case, ctx: &mut Ctx) {
+    let kind = if is_set { "set" } else { "list" };
+    let m0 = Model::new(is_set, S::IS_DS, cap);
+    // initial store
+    let empty = match S::build(&[]) {
+        Ok(s) => s,
+        Err(e) => {
+            ctx.fail(format!("{kind}/build/empty"), format!("store {name}: cannot build an empty store: {e}"));
+            return;
+        }
+    };
+    let mut r = Runner { name, kind, st: empty, m: m0, ctx, step: 0 };
+    if case.prefill > 0 {
+        // u16 boundary: fill the term index through from_*_source, then empty the store
+        // (index entries stay behind) except for a few quads with the highest indices
+        let pre = prefill_quads(case.prefill, S::IS_DS);
+        match r.build(&pre, "prefill") {
+            Some((st, nm)) => {
+                r.st = st;
+                r.m = nm;
+            }
+            None => {
+                if !r.ctx.failed() {
+                    r.ctx.fail(format!("{kind}/prefill/unexpected-full"), format!("store {name}: {} distinct terms did not fit", case.prefill));
+                }
+                return;
+            }
+        }
+        r.check_all("prefill", "content");
+        let keep = 6.min(pre.len());
+        r.op_remove_all(&pre[..pre.len() - keep]);
+        r.op_insert_all(&case.init, "insert_all");
+    } else if let Some((st, nm)) = r.build(&case.init, "collect") {
+        r.st = st;
+        r.m = nm;
+        r.check_all("collect", "content");
+    }
+    for (step, op) in case.ops.iter().enumerate() {
+        if r.ctx.failed() {
+            return;
+        }
+        r.step = step;
+        match op {
+            Op::Insert(q) => r.op_insert(q),
+            Op::Remove(q) => r.op_remove(q),
+            Op::InsertAll(qs) => r.op_insert_all(qs, "insert_all"),
+            Op::RemoveAll(qs) => r.op_remove_all(qs),
+            Op::RemoveMatching(p) => r.op_remove_matching(p),
+            Op::RetainMatching(p) => r.op_retain_matching(p),
+            Op::Rebuild(extra) => r.op_rebuild(extra),
+            Op::Query(p) => r.op_query(p),
+            Op::Contains(q) => r.op_contains(q),
+            Op::Terms => r.op_terms(),
+        }
+    }
+    if !r.ctx.failed() {
+        r.step = case.ops.len();
+        r.check_all("final", "content");
+    }
+    if r.m.full_events > 0 {
+        r.ctx.nontrivial();
+    }
+}
+
+macro_rules! dispatch {
+    ($case:expr, $ctx:expr, $table:expr, $wrap:ident, [$($ty:ty),* $(,)?]) => {{
+        let mut i = 0usize;
+        $(
+            {
+                let (name, is_set, cap) = $table[i];
+                let wanted = match &$case.only {
+                    Some(n) => n == name,
+                    None => true,
+                } && ($case.prefill == 0 || cap == Some(U16_CAP));
+                if wanted && !$ctx.failed() {
+                    run_store::<$wrap<$ty>>(name, is_set, cap, $case, $ctx);
+                }
+                i += 1;
+            }
+        )*
+        let _ = i;
+    }};
+}
+
+fn run_all(case: &Case, ctx: &mut Ctx) {
+    dispatch!(case, ctx, DS_STORES, Ds, [
+        FastDataset, LightDataset, SmallFastDataset, SmallLightDataset,
+        TinyFastDataset<5>, TinyFastDataset<8>, TinyFastDataset<12>,
+        TinyLightDataset<5>, TinyLightDataset<8>, TinyLightDataset<12>,
+        HashSpog, HashGspo, BTreeSpog, BTreeGspo, VecSpog, VecGspo,
+        HashSpogArc, BTreeGspoArc, VecGspoArc,
+    ]);
+    dispatch!(case, ctx, GR_STORES, Gr, [
+        FastGraph, LightGraph, SmallFastGraph, SmallLightGraph,
+        TinyFastGraph<5>, TinyFastGraph<8>, TinyFastGraph<12>,
+        TinyLightGraph<5>, TinyLightGraph<8>, TinyLightGraph<12>,
+        HashTriples, BTreeTriples, VecTriples,
+        HashTriplesArc, BTreeTriplesArc, VecTriplesArc,
+    ]);
+}
+
+/// Store-independent pass over the history with a plain set model: generator statistics
+/// and the non-triviality rule.
+fn reference_pass(case: &Case, ctx: &mut Ctx) {
+    let mut m = Model::new(true, true, None);
+    for q in &case.init {
+        let _ = m.insert(q, true);
+    }
+    let mut effective_removal = false;
+    let mut kinds = BTreeSet::new();
+    for op in &case.ops {
+        kinds.insert(op.kind());
+        match op {
+            Op::Insert(q) => {
+                ctx.class(if m.count(q) > 0 { "hit:insert-duplicate" } else { "hit:insert-new" });
+                let _ = m.insert(q, true);
+            }
+            Op::Remove(q) => {
+                if m.remove(q) {
+                    effective_removal = true;
+                    ctx.class("hit:remove-present");
+                } else {
+                    ctx.class("hit:remove-absent");
+                }
+            }
+            Op::InsertAll(qs) => {
+                for q in qs {
+                    let _ = m.insert(q, true);
+                }
+            }
+            Op::RemoveAll(qs) => {
+                let mut any = false;
+                for q in qs {
+                    any |= m.remove(q);
+                }
+                effective_removal |= any;
+                ctx.class(if any { "hit:remove_all-effective" } else { "hit:remove_all-noop" });
+            }
+            Op::RemoveMatching(p) | Op::RetainMatching(p) => {
+                let retain = matches!(op, Op::RetainMatching(_));
+                let victims: Vec<MQ> = m.quads.keys().filter(|q| p.matches(q) != retain).cloned().collect();
+                ctx.class(format!("pattern-mutation-shape:{}", p.shape()));
+                ctx.class(if victims.is_empty() { "hit:pattern-mutation-noop" } else { "hit:pattern-mutation-effective" });
+                effective_removal |= !victims.is_empty();
+                for q in &victims {
+                    m.remove(q);
+                }
+            }
+            Op::Rebuild(extra) => {
+                for q in extra {
+                    let _ = m.insert(q, true);
+                }
+            }
+            Op::Query(p) => {
+                if effective_removal {
+                    ctx.nontrivial();
+                }
+                ctx.class(format!("query-shape:{}", p.shape()));
+                for (pos, l) in [("s", p.s.label()), ("p", p.p.label()), ("o", p.o.label())] {
+                    ctx.class(format!("matcher:{pos}:{l}"));
+                }
+                ctx.class(format!("matcher:g:{}", p.g.label()));
+                let n = m.quads.keys().filter(|q| p.matches(q)).count();
+                if n > 0 {
+                    ctx.class(format!("query-nonempty-shape:{}", p.shape()));
+                }
+                ctx.class(match n {
+                    0 => "query-result:empty",
+                    1 => "query-result:1",
+                    _ => "query-result:2+",
+                });
+            }
+            Op::Contains(q) => {
+                if effective_removal {
+                    ctx.nontrivial();
+                }
+                ctx.class(if m.count(q) > 0 { "hit:contains-present" } else { "hit:contains-absent" });
+            }
+            Op::Terms => {
+                if effective_removal {
+                    ctx.nontrivial();
+                }
+            }
+        }
+    }
+    for k in kinds {
+        ctx.class(format!("op:{k}"));
+    }
+    // alphabet
+    let mut terms: Vec<&MT> = vec![];
+    let mut all_q: Vec<&MQ> = case.init.iter().collect();
+    for op in &case.ops {
+        match op {
+            Op::Insert(q) | Op::Remove(q) | Op::Contains(q) => all_q.push(q),
+            Op::InsertAll(v) | Op::RemoveAll(v) | Op::Rebuild(v) => all_q.extend(v.iter()),
+            _ => {}
+        }
+    }
+    for q in &all_q {
+        terms.extend(q.terms());
+    }
+    let has = |f: &dyn Fn(&MT) -> bool| terms.iter().any(|t| f(t));
+    if has(&|t| t.is_triple()) {
+        ctx.class("alphabet:quoted-triple");
+    }
+    if has(&|t| t.depth() >= 2) {
+        ctx.class("alphabet:nested-quoted-triple");
+    }
+    if has(&|t| t.has_var()) {
+        ctx.class("alphabet:variable");
+    }
+    if has(&|t| t.is_bnode()) {
+        ctx.class("alphabet:blank-node");
+    }
+    if all_q.iter().any(|q| q.g.is_some()) {
+        ctx.class("alphabet:named-graph");
+    }
+    if all_q.iter().any(|q| q.s.is_literal() || q.p.is_literal() || q.g.as_ref().map(|g| g.is_literal()).unwrap_or(false)) {
+        ctx.class("alphabet:generalized-literal-position");
+    }
+    let tags: BTreeSet<&str> = terms.iter().filter_map(|t| t.tag()).collect();
+    if tags.iter().any(|t| tags.iter().any(|u| t != u && t.eq_ignore_ascii_case(u))) {
+        ctx.class("alphabet:case-variant-language-tags");
+    }
+    if case.prefill > 0 {
+        ctx.class("u16-boundary-scenario");
+    }
+}
+
+// ------------------------------------------------------------------ generator
+
+fn iri_a() -> MT {
+    MT::iri("http://x/a")
+}
+fn iri_p() -> MT {
+    MT::iri("http://x/p")
+}
+fn t1() -> MT {
+    MT::triple(iri_a(), iri_p(), MT::lang("a", "en"))
+}
+fn t1_upper() -> MT {
+    MT::triple(iri_a(), iri_p(), MT::lang("a", "EN"))
+}
+fn t2() -> MT {
+    MT::triple(MT::bn("b"), iri_p(), t1())
+}
+fn s_pool() -> Vec<MT> {
+    vec![iri_a(), MT::bn("b"), t1(), MT::var("v"), MT::lang("a", "en"), t2()]
+}
+fn p_pool() -> Vec<MT> {
+    vec![iri_p(), MT::iri("http://x/q"), iri_a(), MT::var("v"), MT::bn("b")]
+}
+fn o_pool() -> Vec<MT> {
+    vec![
+        iri_a(),
+        MT::string("a"),
+        MT::lang("a", "en"),
+        MT::lang("a", "EN"),
+        MT::lit("1", xsd("integer")),
+        t1(),
+        t1_upper(),
+        t2(),
+        MT::bn("b"),
+        MT::var("v"),
+    ]
+}
+fn g_pool() -> Vec<Option<MT>> {
+    vec![None, Some(iri_a()), Some(MT::iri("http://x/g")), Some(MT::bn("b")), Some(MT::lang("a", "EN")), Some(t1())]
+}
+
+fn kind_code(t: &MT) -> u8 {
+    // inverse of pat::kind_of
+    match t {
+        MT::Bnode(_) => 0,
+        MT::Iri(_) => 1,
+        MT::Lit(..) | MT::Lang(..) => 2,
+        MT::Triple(_) => 3,
+        MT::Var(_) => 4,
+    }
+}
+fn flip_case(s: &str) -> String {
+    if s.chars().any(|c| c.is_ascii_lowercase()) {
+        s.to_ascii_uppercase()
+    } else {
+        s.to_ascii_lowercase()
+    }
+}
+/// A term matcher of the kind selected by `sel` that matches `t` (`u`: another term).
+fn mk_tpat(t: &MT, sel: u8, u: &MT) -> TPat {
+    match sel % 16 {
+        0..=3 => TPat::Any,
+        4..=6 => TPat::One(t.clone()),
+        7 => TPat::Opt(Some(t.clone())),
+        8 => TPat::Two(u.clone(), t.clone()),
+        9 => TPat::Slice(vec![t.clone()]),
+        10 => TPat::Slice(vec![u.clone(), t.clone(), u.clone()]),
+        11 => TPat::Kind(kind_code(t)),
+        12 => TPat::NotOne(u.clone()),
+        13 => match t {
+            MT::Lit(_, d) => TPat::Dt(d.clone()),
+            MT::Lang(_, tag) => TPat::Tag(flip_case(tag)),
+            MT::Triple(tt) => TPat::Triple(Box::new([TPat::One(tt[0].clone()), TPat::Any, TPat::Kind(kind_code(&tt[2]))])),
+            _ => TPat::ClosureHasA,
+        },
+        14 => TPat::Ref(Box::new(TPat::One(t.clone()))),
+        _ => TPat::NotKind((kind_code(t) + 1) % 5),
+    }
+}
+/// A graph-name matcher of the kind selected by `sel` that matches `g`.
+fn mk_gpat(g: &Option<MT>, sel: u8, u: &Option<MT>) -> GPat {
+    match sel % 16 {
+        0..=3 => GPat::Any,
+        4..=6 => GPat::One(g.clone()),
+        7 => GPat::Opt(Some(g.clone())),
+        8 => GPat::Two(u.clone(), g.clone()),
+        9 => GPat::Slice(vec![g.clone()]),
+        10 => GPat::Slice(vec![u.clone(), g.clone()]),
+        11 => GPat::Kind(g.as_ref().map(kind_code)),
+        12 => GPat::Not(Box::new(GPat::One(u.clone()))),
+        13 => match g {
+            Some(t) => GPat::Gn(mk_tpat(t, sel / 16 + 4, t)),
+            None => GPat::TripleOpt(None),
+        },
+        14 => GPat::Ref(Box::new(GPat::One(g.clone()))),
+        _ => match g {
+            Some(_) => GPat::ClosureIsNamed,
+            None => GPat::Not(Box::new(GPat::ClosureIsNamed)),
+        },
+    }
+}
+
+fn case_strategy(max_ops: usize) -> BoxedStrategy<Case> {
+    let subs = (
+        proptest::sample::subsequence(s_pool(), 1..=3),
+        proptest::sample::subsequence(p_pool(), 1..=2),
+        proptest::sample::subsequence(o_pool(), 2..=4),
+        proptest::sample::subsequence(g_pool(), 1..=3),
+    );
+    subs.prop_flat_map(move |(sp, pp, op, gp)| {
+        // dense universe: |sp|*|pp|*|op|*|gp| = 2..72 quads
+        let dense = (pick(sp.clone()), pick(pp.clone()), pick(op.clone()), pick(gp.clone()))
+            .prop_map(|(s, p, o, g)| MQ::new(s, p, o, g));
+        let dense_for_pat = dense.clone().boxed();
+        let pools = (pick(s_pool()), pick(p_pool()), pick(o_pool()), pick(g_pool())).prop_map(|(s, p, o, g)| MQ::new(s, p, o, g));
+        let mut full = TermCfg::full();
+        full.allow_var = true;
+        let exotic = full.quad(true, true);
+        let quad = prop_oneof![17 => dense, 2 => pools, 1 => exotic].boxed();
+        let mut tpool: Vec<MT> = vec![];
+        for t in sp.iter().chain(pp.iter()).chain(op.iter()).chain(gp.iter().flatten()) {
+            if !tpool.iter().any(|x| x.same_repr(t)) {
+                tpool.push(t.clone());
+            }
+        }
+        tpool.push(MT::iri("http://x/absent"));
+        let tp = tpat(
+            tpool,
+            vec![XSD_STRING.into(), RDF_LANGSTRING.into(), xsd("integer")],
+            vec!["en".into(), "EN".into(), "fr".into()],
+        );
+        let mut gpool = gp.clone();
+        gpool.push(Some(MT::iri("http://x/absent")));
+        if !gpool.contains(&None) {
+            gpool.push(None);
+        }
+        let gpt = gpat(gpool, tp.clone());
+        let random_qp = (tp.clone(), tp.clone(), tp.clone(), gpt.clone()).prop_map(|(s, p, o, g)| QPat { s, p, o, g });
+        // half of the positions unconstrained
+        let any_or = |t: BoxedStrategy<TPat>| prop_oneof![1 => Just(TPat::Any), 1 => t].boxed();
+        let mixed_qp = (any_or(tp.clone()), any_or(tp.clone()), any_or(tp.clone()), prop_oneof![1 => Just(GPat::Any), 1 => gpt])
+            .prop_map(|(s, p, o, g)| QPat { s, p, o, g });
+        // built around a quad of the universe: matches that quad whenever it is present
+        let hitting_qp = (dense_for_pat.clone(), dense_for_pat, any::<[u8; 4]>())
+            .prop_map(|(q, u, sel)| QPat {
+                s: mk_tpat(&q.s, sel[0], &u.s),
+                p: mk_tpat(&q.p, sel[1], &u.p),
+                o: mk_tpat(&q.o, sel[2], &u.o),
+                g: mk_gpat(&q.g, sel[3], &u.g),
+            });
+        let qp = prop_oneof![5 => hitting_qp, 2 => mixed_qp, 2 => random_qp].boxed();
+        let qv = prop::collection::vec(quad.clone(), 0..6);
+        let op = prop_oneof![
+            7 => quad.clone().prop_map(Op::Insert),
+            4 => quad.clone().prop_map(Op::Remove),
+            2 => qv.clone().prop_map(Op::InsertAll),
+            2 => qv.clone().prop_map(Op::RemoveAll),
+            2 => qp.clone().prop_map(Op::RemoveMatching),
+            1 => qp.clone().prop_map(Op::RetainMatching),
+            1 => prop::collection::vec(quad.clone(), 0..3).prop_map(Op::Rebuild),
+            9 => qp.clone().prop_map(Op::Query),
+            2 => quad.clone().prop_map(Op::Contains),
+            1 => Just(Op::Terms),
+        ];
+        (prop::collection::vec(quad, 0..8), prop::collection::vec(op, 1..=max_ops))
+            .prop_map(|(init, ops)| Case { init, ops, only: None, prefill: 0 })
+    })
+    .boxed()
+}
+
+fn sample_cases(seed: u64, n: usize, max_ops: usize) -> Vec<Case> {
+    let mut seed_bytes = [0u8; 32];
+    seed_bytes[..8].copy_from_slice(&seed.to_le_bytes());
+    seed_bytes[8..16].copy_from_slice(b"c01-u16b");
+    let rng = TestRng::from_seed(RngAlgorithm::ChaCha, &seed_bytes);
+    let mut runner = TestRunner::new_with_rng(Config::default(), rng);
+    let strat = case_strategy(max_ops);
+    (0..n)
+        .filter_map(|_| strat.new_tree(&mut runner).ok().map(|t| t.current()))
+        .collect()
+}
+
+// ------------------------------------------------------------------ the check
+
+pub struct C01;
+
+impl Check for C01 {
+    type Case = Case;
+    const ID: &'static str = "C01";
+    fn rule() -> String {
+        "operation histories (1-50 ops, plus 0-7 initial quads collected through from_quad_source/from_triple_source) over a dense universe of 2-72 generalized quads drawn per case from pools with IRIs, blank nodes, literals (datatype, \"a\"@en vs \"a\"@EN), nested quoted triples (incl. case-variant tags inside), variables, default/named graphs (+15% quads from wider pools / exotic strings): insert, remove, insert_all, remove_all, remove_matching, retain_matching, rebuild, pattern query (every matcher kind of pat.rs per position, all 2^4 bound/unbound shapes), contains, the 9 term enumerations. Every history runs against all 35 store types (19 datasets, 16 graphs; graphs see the triple projection); after every operation each store is compared with its own reference model (multiset of quads; flags/counts for set stores; set of indexed terms with capacity Index::MAX for 16-bit and tiny indexes; an index-full error must leave the quads unchanged, insert_all stops with a sink error). Fixed cases pre-fill 65 5xx distinct terms into the four small::* stores and continue a random history across the 16-bit boundary. Non-trivial = history with an effective removal or pattern-based mutation followed by a query/contains/term enumeration, or one in which a term index became full; distinct by hash of the whole case.".into()
+    }
+    fn assumptions() -> Vec<String> {
+        vec![
+            "returned flags/counts are only checked for set stores (documented as not significant otherwise)".into(),
+            "Vec-backed stores: remove drops every equal entry (the contract of the repository's own handle_duplicate test); compared as multisets".into(),
+            "term enumerations are compared as sets (duplicates explicitly allowed by the docs)".into(),
+            "capacity of a SimpleTermIndex<I> = I::MAX terms (MAX itself is reserved for the default graph), terms are indexed in the order s, p, o, g; an insertion accepted beyond that capacity is tolerated (only counted) as long as the set semantics hold".into(),
+            "agreement between implementations is established through the common reference model (each store == model)".into(),
+        ]
+    }
+    fn cases(tier: Tier) -> u32 {
+        tier.pick(4_000, 130_000)
+    }
+    fn strategy(tier: Tier) -> BoxedStrategy<Case> {
+        case_strategy(tier.pick(50, 70))
+    }
+    fn fixed_cases(tier: Tier, seed: u64) -> Vec<Case> {
+        // u16-boundary scenarios
+        let n = tier.pick(4usize, 48);
+        let mut cases = sample_cases(seed, n, 40);
+        for (i, c) in cases.iter_mut().enumerate() {
+            // 65535 terms fit; start 0..14 terms below the limit
+            c.prefill = U16_CAP as u32 - [9u32, 4, 0, 14, 2, 6, 1, 11, 3, 7, 12, 5][i % 12];
+        }
+        cases
+    }
+    fn run(case: &Case, ctx: &mut Ctx) {
+        reference_pass(case, ctx);
+        run_all(case, ctx);
+    }
+    fn show(case: &Case) -> serde_json::Value {
+        let ops: Vec<String> = case
+            .ops
+            .iter()
+            .map(|op| match op {
+                Op::Insert(q) => format!("insert {}", q.show()),
+                Op::Remove(q) => format!("remove {}", q.show()),
+                Op::InsertAll(v) => format!("insert_all [{}]", brief(v)),
+                Op::RemoveAll(v) => format!("remove_all [{}]", brief(v)),
+                Op::RemoveMatching(p) => format!("remove_matching {} {:?}", p.shape(), p),
+                Op::RetainMatching(p) => format!("retain_matching {} {:?}", p.shape(), p),
+                Op::Rebuild(v) => format!("rebuild + [{}]", brief(v)),
+                Op::Query(p) => format!("query {} {:?}", p.shape(), p),
+                Op::Contains(q) => format!("contains {}", q.show()),
+                Op::Terms => "terms".into(),
+            })
+            .collect();
+        serde_json::json!({"init": brief(&case.init), "ops": ops, "prefill": case.prefill, "only": case.only})
+    }
+    fn extra_evidence(_tier: Tier) -> serde_json::Value {
+        serde_json::json!({
+            "dataset_stores": DS_STORES.iter().map(|s| s.0).collect::<Vec<_>>(),
+            "graph_stores": GR_STORES.iter().map(|s| s.0).collect::<Vec<_>>(),
+        })
+    }
+}
+
+pub fn main(opts: &Opts) -> i32 {
+    drive::<C01>(opts)
 }
 pub fn worker(_args: &[String]) -> i32 {
     2
